@@ -3,6 +3,7 @@
 // from -2 to N+3 (N = required length), charsWritten NULL or not, both character
 // types. The destination is a guard-page buffer of exactly max(c,0) characters, so
 // a single character written beyond the stated capacity faults.
+#include <climits>
 #include "gen.hpp"
 #include "parse_common.hpp"
 
@@ -12,7 +13,7 @@ static Fields gen(Tape &t) {
   Fields f;
   LongMode lm(t);
   if (lm.on()) f.seti("long", 1);
-  int src = t.weighted({4, 4, 3, 3});  // parsed / resolved / normalised / created reference
+  int src = t.weighted({4, 4, 3, 3, 2});  // parsed / resolved / normalised / created reference / survivor of a failed in-place step
   f.seti("src", src);
   if (src == 3) {
     GenUri S, B; int k;
@@ -29,6 +30,7 @@ static Fields gen(Tape &t) {
   } else {
     f.set("text", g_uri(t));
     if (src == 2) f.seti("mask", t.chance(1, 2) ? 63 : t.below(64));
+    if (src == 4) { f.seti("mask", t.chance(1, 2) ? 63 : t.below(64)); f.seti("failat", t.range(1, 8)); f.seti("viaowner", t.below(2)); }
   }
   f.seti("cwnull", t.below(3) == 0);
   f.seti("owned", t.chance(3, 4) ? 0 : 1);  // uriMakeOwner on the object before it is written out
@@ -59,6 +61,15 @@ template <class A> static Verdict check_type(const Fields &f, bool *nontrivial, 
       int rc = A::NormalizeSyntaxEx(&p.uri, (unsigned)f.geti("mask"));
       VF_REQUIRE(rc == 0, "%s: normalisation failed rc=%d", A::name(), rc);
     }
+    if (src == 4) {
+      // the object a failed make-owner / normalisation leaves behind (default manager, k-th allocation fails once): whatever
+      // state the library left it in, writing it out must respect the capacity and its own chars-required figure
+      LibcLedger &L = libc_ledger();
+      L.req = 0; L.fail_at = (uint64_t)f.geti("failat");
+      int rc = f.geti("viaowner") ? A::MakeOwner(&p.uri) : A::NormalizeSyntaxEx(&p.uri, (unsigned)f.geti("mask"));
+      L.fail_at = 0;
+      stats().hit(rc == 0 ? "src4:step_succeeded" : "src4:survivor_of_failed_step");
+    }
     u = &p.uri;
   }
   struct Cleanup { typename A::Uri *r; bool on; ~Cleanup() { if (on) A::FreeUriMembers(r); } } cl{&res, haveRes};
@@ -84,6 +95,7 @@ template <class A> static Verdict check_type(const Fields &f, bool *nontrivial, 
   std::vector<int> caps;
   if (N <= 256) for (int c = -2; c <= N + 3; c++) caps.push_back(c);
   else { for (int c = -2; c <= 8; c++) caps.push_back(c); for (int c = N - 8; c <= N + 3; c++) caps.push_back(c); for (int c = 9; c < N - 8; c += 7) caps.push_back(c); }
+  for (int c : {INT_MIN, INT_MIN + 1, -INT_MAX / 2}) caps.push_back(c);  // "no room" in its most extreme spellings
   for (int c : caps) {
     size_t cap = c > 0 ? (size_t)c : 0;
     Ch *dest = gb().right_chars<Ch>(cap);
